@@ -169,9 +169,19 @@ class LookupModel(KModel):
         if len(slots) != 2:
             raise Unsupported("binary-search loop state %s is not a pair of indices" % (rep['modified'],), e)
         st0 = [(s, before[s]) for s in slots]
-        lo_slot = [s for s, v in st0 if self.knows(v, 'A<=q')]
-        hi_slot = [s for s, v in st0 if self.knows(v, 'A>q')]
-        if len(lo_slot) != 1 or len(hi_slot) != 1 or lo_slot[0] == hi_slot[0]:
+        # the pair is kept as (lower, upper) or as (lower, width) with upper = lower + width: every reading under which the entry state
+        # satisfies the invariant is a candidate; the one under which the body preserves it is reported (the first, if none does)
+        cands = []
+        for s_lo, v_lo in st0:
+            if not self.knows(v_lo, 'A<=q'):
+                continue
+            other = [s_ for s_, _ in st0 if s_ != s_lo][0]
+            if self.knows(dict(st0)[other], 'A>q'):
+                cands.append((s_lo, other, False))
+            if self.knows(str(_leaf_num(frame, s_lo).r + _leaf_num(frame, other).r), 'A>q'):
+                cands.append((s_lo, other, True))
+        cands.sort(key=lambda c: c[2])
+        if not cands:
             rep['entry'] = tuple(v for _, v in st0)
             rep['establish'] = (False, False)
             rep['entry_facts'] = {k: sorted(v) for k, v in self.facts.items()}
@@ -179,42 +189,58 @@ class LookupModel(KModel):
             _set_leaf(frame, st0[0][0], 'lo*')
             _set_leaf(frame, st0[1][0], 'hi*')
             return self._leave_loop(body, frame)
-        lo_slot, hi_slot = lo_slot[0], hi_slot[0]
+
+        def attempt(lo_slot, hi_slot, offset):
+            def upper_of(fr):
+                lo_, h_ = _leaf_num(fr, lo_slot), _leaf_num(fr, hi_slot)
+                return str((lo_.r + h_.r) if offset else h_.r)
+
+            def set_pair(fr, lo_name, hi_name):
+                _set_leaf(fr, lo_slot, lo_name)
+                _set_leaf(fr, hi_slot, (Rat.atom(hi_name) - Rat.atom(lo_name)) if offset else hi_name)
+            # ---- preservation: one inductive step from a fresh state satisfying the invariant
+            steps = []
+            stack = [[]]
+            while stack:
+                dec = stack.pop()
+                m2, it2 = fork_model(dec, False)
+                fr2 = fork_frame()
+                set_pair(fr2, 'lo', 'hi')
+                m2.add_fact('lo', 'A<=q')
+                m2.add_fact('hi', 'A>q')
+                try:
+                    try:
+                        it2.eval(body, fr2)
+                        lo1, hi1 = str(_leaf_num(fr2, lo_slot).r), upper_of(fr2)
+                        steps.append({'decisions': list(m2.trace), 'exit': False, 'state': (lo1, hi1),
+                                      'inv': (m2.knows(lo1, 'A<=q'), m2.knows(hi1, 'A>q')),
+                                      'reads': [r[0] for r in m2.reads]})
+                    except (BreakEx, ReturnEx) as ex:
+                        steps.append({'decisions': list(m2.trace), 'exit': True, 'idx_facts': list(m2.idx_facts),
+                                      'value': str(deref_all(ex.v).r) if isinstance(deref_all(ex.v), Num) else None,
+                                      'reads': [r[0] for r in m2.reads]})
+                except NeedDecision:
+                    stack.append(dec + [True])
+                    stack.append(dec + [False])
+            good = all(all(st['inv']) for st in steps if not st['exit']) and sum(1 for st in steps if not st['exit']) == 2
+            return steps, good, upper_of, set_pair
+        chosen = None
+        for c in cands:
+            res = attempt(*c)
+            if chosen is None or (res[1] and not chosen[1][1]):
+                chosen = (c, res)
+            if res[1]:
+                break
+        (lo_slot, hi_slot, offset), (steps, _, upper_of, set_pair) = chosen
+        rep['representation'] = '(lower, upper - lower)' if offset else '(lower, upper)'
         lo0 = dict(st0)[lo_slot]
-        hi0 = dict(st0)[hi_slot]
+        hi0 = upper_of(frame)
         rep['entry'] = (lo0, hi0)
         rep['establish'] = (self.knows(lo0, 'A<=q'), self.knows(hi0, 'A>q'))
         rep['entry_facts'] = {k: sorted(v) for k, v in self.facts.items()}
-        # ---- preservation: one inductive step from a fresh state satisfying the invariant
-        steps = []
-        stack = [[]]
-        while stack:
-            dec = stack.pop()
-            m2, it2 = fork_model(dec, False)
-            fr2 = fork_frame()
-            _set_leaf(fr2, lo_slot, 'lo')
-            _set_leaf(fr2, hi_slot, 'hi')
-            m2.add_fact('lo', 'A<=q')
-            m2.add_fact('hi', 'A>q')
-            try:
-                try:
-                    it2.eval(body, fr2)
-                    st1 = dict(_leaves_of_frame(fr2))
-                    lo1, hi1 = st1[lo_slot], st1[hi_slot]
-                    steps.append({'decisions': list(m2.trace), 'exit': False, 'state': (lo1, hi1),
-                                  'inv': (m2.knows(lo1, 'A<=q'), m2.knows(hi1, 'A>q')),
-                                  'reads': [r[0] for r in m2.reads]})
-                except (BreakEx, ReturnEx) as ex:
-                    steps.append({'decisions': list(m2.trace), 'exit': True, 'idx_facts': list(m2.idx_facts),
-                                  'value': str(deref_all(ex.v).r) if isinstance(deref_all(ex.v), Num) else None,
-                                  'reads': [r[0] for r in m2.reads]})
-            except NeedDecision:
-                stack.append(dec + [True])
-                stack.append(dec + [False])
         rep['steps'] = steps
         # ---- after the loop: havoc the pair, assume the invariant, leave through the body's own exit path
-        _set_leaf(frame, lo_slot, 'lo*')
-        _set_leaf(frame, hi_slot, 'hi*')
+        set_pair(frame, 'lo*', 'hi*')
         self.add_fact('lo*', 'A<=q')
         self.add_fact('hi*', 'A>q')
         return self._leave_loop(body, frame)
@@ -258,9 +284,17 @@ def _leaves_of_frame(fr):
             yield (var, path), s
 
 
+def _leaf_num(fr, slot):
+    var, path = slot
+    cur = deref_all(fr.lookup(var))
+    for p in path:
+        cur = deref_all(cur.items[int(p)] if isinstance(cur, Tup) else cur.fields[p])
+    return cur
+
+
 def _set_leaf(fr, slot, name):
     var, path = slot
-    new = Num(Rat.atom(name))
+    new = Num(name if isinstance(name, Rat) else Rat.atom(name))
     if not path:
         fr.assign(var, new)
         return
@@ -364,6 +398,37 @@ class GridModel(Model):
         raise Diverge("the search does not end within 4 len + 16 iterations on an axis of length %d" % self.n, e)
 
 
+def _only_panics(node):
+    if node is None:
+        return True
+    for x in walk(node):
+        if x.get('k') == 'Call' and any(w in ((x.get('callee') or {}).get('path') or '') for w in ('panic', 'unimplemented', 'unreachable', 'begin_panic', 'assert_failed')):
+            return True
+    return False
+
+
+def unexecuted_branches(lib, body, log):
+    """`if` branches of `body` and of the crate functions it (transitively) calls that no evaluation recorded in `log` has taken"""
+    seen, todo, out = set(), [body], []
+    while todo:
+        b = todo.pop()
+        if id(b) in seen:
+            continue
+        seen.add(id(b))
+        for x in walk(b['root']):
+            if x.get('k') == 'Call':
+                cb = lib.body(strip_generics((x.get('callee') or {}).get('path') or ''))
+                if cb is not None:
+                    todo.append(cb)
+            if x.get('k') == 'If':
+                sp = x.get('sp')
+                if (sp, True) not in log and not _only_panics(x['then']):
+                    out.append("then-branch at %s" % line_of(x))
+                if x.get('else') is not None and (sp, False) not in log and not _only_panics(x['else']):
+                    out.append("else-branch at %s" % line_of(x))
+    return sorted(set(out))
+
+
 def bounded_grid(chk, lib, body, why):
     """fallback when the comparison skeleton cannot be extracted (recursion, state in unmodelled structures ...): the lookup is
     evaluated as written for every axis length 2..6, every query position (on each knot, in each gap, below, above) and every value of the
@@ -375,11 +440,13 @@ def bounded_grid(chk, lib, body, why):
     chk.note('c11_route', 'bounded grid up to length %d, because: %s' % (maxn, why))
     runs = bad = 0
     first_bad = None
+    branch_log = set()
     for n in range(2, maxn + 1):
         for v in range(-1, 2 * (n - 1) + 2):
             want = 0 if v <= 0 else (n - 2 if v >= 2 * (n - 1) else v // 2)
             for g in range(0, n):
                 m = GridModel(n, g)
+                m.branch_log = branch_log
                 it = Interp(lib, m)
                 runs += 1
                 try:
@@ -399,6 +466,11 @@ def bounded_grid(chk, lib, body, why):
     chk.ob('R11.7', "all %d (length, query position, guess) combinations return the bracketing interval (first deviation: %s)" % (runs, first_bad),
            bad == 0, body['span'], 'grid')
     chk.floor('R11.7', 'grid runs', runs, 200)
+    # a bounded exploration says nothing about code it never executed (a path taken only on long axes): every branch of the lookup and of
+    # the crate functions it calls must have been taken by some grid point, apart from branches that only panic
+    dead = unexecuted_branches(lib, body, branch_log)
+    chk.ob('R11.7', "every branch of the lookup is executed by some grid point, so the bounded exploration speaks for the whole function (never executed: %s)" %
+           (', '.join(dead[:4]) or 'none'), not dead, body['span'], 'grid-covers-all-branches')
     chk.level = 'exploration'
 
 
